@@ -39,6 +39,7 @@ class Theory:
         RA = z3.ArraySort(z3.IntSort(), z3.RealSort())
         self.sum_int = z3.Function("sum_int", IA, z3.IntSort(), z3.IntSort(), z3.IntSort())
         self.sum_real = z3.Function("sum_real", RA, z3.IntSort(), z3.IntSort(), z3.RealSort())
+        self.prod_int = z3.Function("prod_int", IA, z3.IntSort(), z3.IntSort(), z3.IntSort())
         # Nonlinear integer operations as uninterpreted symbols (used when a property sets
         # abstract_nl): function VCs then need only linear arithmetic + E-matching, and every
         # arithmetic fact comes from a lemma that is proved separately with the symbols
